@@ -212,8 +212,15 @@ def pick_programs(cases, step, offset, minlen=1):
     """all forms of every step-th program (programs = distinct statement sequences of >= minlen statements)"""
     progs = sorted({tuple(c["lines"]) for c in cases if len(c["lines"]) >= minlen})
     chosen = set(progs[offset % step::step]) if step > 1 else set(progs)
-    # always keep the programs that have a form with output before the failure (successful FILE, failing -e)
+    # always keep the programs that have a form with output before the failure (successful FILE, failing -e) ...
     chosen |= {tuple(c["lines"]) for c in cases if c["status"] == 1 and c["stdout"] and len(c["lines"]) >= minlen}
+    # ... and those with a failing FILE followed by -e arguments that would, on their own, write to standard output
+    alone = {tuple(c["lines"]): c for c in cases if not c["hasfile"]}
+    for c in cases:
+        if c["hasfile"] and c["exprs"] and c["log"][0]["outcome"] != "ok" and len(c["lines"]) >= minlen:
+            rest = alone.get(tuple(c["lines"][c["log"][0]["n"]:]))
+            if rest is not None and rest["status"] == 0 and rest["stdout"]:
+                chosen.add(tuple(c["lines"]))
     return [c for c in cases if tuple(c["lines"]) in chosen]
 
 
@@ -288,7 +295,8 @@ def run(tier, seed):
     if tier == "quick":
         plan = [("full", 2, [("P", 1), ("M", 6)], 30, 1), ("core", 3, [("P", 8)], 20, 3)]
     else:
-        plan = [("full", 3, [("P", 1), ("M", 8)], 100, 1), ("core", 4, [("P", 4)], 40, 4)]
+        plan = [("full", 2, [("P", 1), ("M", 1)], 10, 1), ("mid", 3, [("P", 1), ("M", 8)], 100, 3),
+                ("full", 3, [("P", 8)], 100, 3), ("core", 4, [("P", 8)], 40, 4)]
     for alphabet, maxlen, variants, step, minlen in plan:
         run_set(rep, runner_box, cli, d, alphabet, maxlen, variants, classes, drift, step, seed, minlen)
     # sanity of the set-up: the mini prelude is what the binary sees in variant M (not the real prelude)
@@ -315,13 +323,14 @@ def run(tier, seed):
         print("MODEL-DRIFT: property=%s %s (%d occurrence(s))" % (PROP, k, n))
     rep.notes["model_drift"] = drift
     rep.set("rule", "every program of <= MaxLen statement templates (full alphabet: 21 templates incl. one failure per "
-            "stage; core alphabet: 8 templates, one step longer) x every split into FILE / -e arguments x -e given per "
+            "stage; mid: 14 of them; core alphabet: 8 templates, one step longer) x every split into FILE / -e arguments x -e given per "
             "statement or as one multi-line argument; each run through the real binary (prelude delivered in two ways, "
             "plus --pretty-print never/always on a sample); non-trivial = invocations with a failing input "
             "(predicted exit status 1)")
     rep.set("exhaustive", True)
-    rep.notes["sampling"] = ("full alphabet: every generated invocation is run (variant P); core alphabet and variant M: all "
-                             "forms of every n-th program plus every program with output before a failure (plan in c22.py)")
+    rep.notes["sampling"] = ("plan in c22.py run(): (alphabet, MaxLen, [(prelude variant, every n-th program)], ..): n = 1 means every "
+                             "generated invocation is run; n > 1: all forms of every n-th program plus every program with "
+                             "output before a failure or with a failing FILE followed by -e arguments that would write output")
     rep.assumptions += [
         "numbat-cli built from /repo's working tree with --no-default-features; run with --no-config --no-init, "
         "HOME/XDG dirs pointing to an empty scratch directory, stdin closed, NO_COLOR",
